@@ -6,6 +6,7 @@ import Py65.Driver.Spec
 import Py65.Driver.Num
 import Py65.Driver.Obs
 import Py65.Driver.Mon
+import Py65.Driver.Asm
 
 namespace Py65.Driver
 open Py65
@@ -34,6 +35,12 @@ def handleBase (toks : List String) : Option String :=
   | "pyint" :: rest => some (pyint rest)
   | "obs" :: rest => some (runObs rest)
   | "mon" :: rest => some (runMon rest)
+  | "asm" :: rest => some (runAsm ("asm" :: rest))          -- assembler model (C07/C08)
+  | "nas" :: rest => some (runAsm ("nas" :: rest))
+  | "stm" :: rest => some (runAsm ("stm" :: rest))
+  | "dis" :: rest => some (runAsm ("dis" :: rest))          -- disassembler model (C08/C09)
+  | "spc" :: rest => some (runAsm ("spc" :: rest))          -- Spec.Asm.encode
+  | "spa" :: rest => some (runAsm ("spa" :: rest))
   | "num" :: rest => some (runNum ("num" :: rest))
   | "rng" :: rest => some (runNum ("rng" :: rest))
   | "lbl" :: rest => some (runNum ("lbl" :: rest))
